@@ -129,6 +129,19 @@ def distribution(cases, outs):
             "exceptions": dict(Counter(o["exc"] for o in outs if isinstance(o, dict) and "exc" in o))}
 
 
+# functions of the implementation this property is anchored in: their line coverage under the correspondence cases is
+# measured on the staged copy and reported in the evidence (implementation_line_coverage)
+ANCHORS = [
+    "datascope/importance/importance.py:Importance.fit",
+    "datascope/importance/importance.py:Importance.score",
+    "datascope/importance/shapley.py:ShapleyImportance._shapley_neighbor",
+    "datascope/importance/shapley.py:ShapleyImportance._shapley_bruteforce",
+    "datascope/importance/shapley.py:ShapleyImportance._shapley_montecarlo",
+    "datascope/importance/common.py:expand_series_based_on_index",
+    "datascope/importance/utility.py:SklearnModelUtility._align_labels",
+    "datascope/importance/utility.py:SklearnModelUtility._process_metric_score_inputs",
+]
+
 MANIFEST = {
     "text": "PARTIAL BY NATURE. Proof: C18_same_decode_same_score (scores are a function of the decoded canonical data) and "
             "C18_label_classes (the label encoder depends only on the sorted distinct labels). That the CODE decodes "
